@@ -19,7 +19,7 @@ import (
 // a pluggable component: it may be as slow as a disk. Slow operations move the library's deadlines into the
 // middle of its critical sections - where a wake-up sent without the waiter's lock, or a check made before a
 // blocking step, gets lost.
-type slowStorageUnused struct {
+type slowStorage struct {
 	in                  iscp.VerifSentStorage
 	store, remove, list time.Duration
 }
